@@ -51,10 +51,15 @@ RULE = (
     "MDOParallelChain / DiscParallelExecution / DiscParallelLinearization over generated polynomial disciplines "
     "(threads and processes, per-discipline delays, failing disciplines), FirstOrderFD parallel vs serial "
     "(f_gradient with component subsets, compute_optimal_step) and twin disciplines sharing one MemoryFullCache on "
-    "inputs with duplicates. "
+    "inputs with duplicates; chain_inplace: thread MDOParallelChain of 2-3 disciplines reading the same inputs, with "
+    "use_deep_copy=True some of them modify their input arrays in place (x*=2, x+=1, x/=4), the interleaving is owned by "
+    "events (a drawn permutation of turns: a discipline touches its inputs only after the previous turn has finished), "
+    "oracle = every output equals the discipline run alone on a fresh copy (with use_deep_copy=False inputs are read-only: "
+    "no writer is drawn). "
     "Non-trivial = schedule whose realised completion order differs from the submission order (fault cases: with "
     ">=1 failing and >=1 succeeding task); derived without gates: >=2 workers and >=2 tasks with unequal delays (DOE "
-    "fault part: >=1 raising sample; cache: >=2 tasks with the same input). Distinct = structural hash of (back-end, "
+    "fault part: >=1 raising sample; cache: >=2 tasks with the same input; chain_inplace: a writer whose turn precedes "
+    "another discipline's). Distinct = structural hash of (back-end, "
     "workers, realised order, failure vector, mode) resp. of the drawn payload."
 )
 ASSUMPTIONS = [
@@ -536,6 +541,7 @@ def run(ctx):
         disc_payloads(mode, back, failures=fl) for mode in ("exec", "lin") for back in backs for fl in (False, True)
     ] + [disc_payloads(mode, "process", one_disc=True) for mode in ("exec", "lin")])
     _variants(ctx, "chain", case_chain, 24, 160, [chain_payloads(back) for back in backs])
+    _variants(ctx, "chain_inplace", case_chain_inplace, 80, 600, [inplace_payloads(n, deep) for n in (2, 3) for deep in (True, True, False)][:5])
     _variants(ctx, "doe", case_doe, 32, 200, [doe_payloads(r, j) for r in (False, True) for j in (False, True)])
     _timed(ctx, "fd", lambda: ctx.drive("fd", fd_payloads(), case_fd, quick=20, thorough=120))
     _variants(ctx, "cache", case_cache, 40, 240, [cache_payloads(back, lin) for back in backs for lin in (False, True)])
@@ -1137,3 +1143,122 @@ def case_doe(p, ctx):
 
 
 ORACLES.update({"doe": case_doe, "chain": case_chain, "disc": case_disc, "fd": case_fd, "cache": case_cache})
+
+
+# --------------------------------------------------------------------------- MDOParallelChain: independent input copies
+# Disciplines sharing input names, some of which modify their input arrays in place (the use case of
+# use_deep_copy=True).  The interleaving is owned by the harness: discipline d touches its inputs only after the
+# discipline of the previous turn has finished (events, thread back-end, one thread per discipline).
+WRITE_OPS = {"double": lambda x: x.__imul__(2.0), "shift": lambda x: x.__iadd__(1.0), "quarter": lambda x: x.__itruediv__(4.0)}
+
+
+class _Turns:
+    """done[t] is set when the discipline whose turn is t has finished; timed_out records a harness time-out."""
+
+    def __init__(self, n):
+        self.done = [threading.Event() for _ in range(n)]
+        self.timed_out = False
+
+
+_WRITER_CLASS = []
+
+
+def _writer_disc_class():
+    if _WRITER_CLASS:
+        return _WRITER_CLASS[0]
+    base = _poly_disc_class()
+
+    class InPlaceDisc(base):
+        """PolyDisc that first applies in-place operations to some of its input arrays, in its turn."""
+
+        def __init__(self, spec, sizes, name, turns=None):
+            super().__init__(spec, sizes, name)
+            self.turns = turns
+
+        def _run(self, input_data):
+            turn = self.spec["turn"]
+            try:
+                if self.turns is not None and turn > 0 and not self.turns.done[turn - 1].wait(GATE_TIMEOUT):
+                    self.turns.timed_out = True
+                    raise _GateTimeout(self.name)
+                for name, op in sorted(self.spec["write"].items()):
+                    WRITE_OPS[op](input_data[name])  # in-place modification of the discipline's own input
+                return {o["name"]: poly_value(o, self.sizes, input_data) for o in self.spec["outs"]}
+            finally:
+                if self.turns is not None:
+                    self.turns.done[turn].set()
+
+    _WRITER_CLASS.append(InPlaceDisc)
+    return InPlaceDisc
+
+
+@st.composite
+def inplace_payloads(draw, n: int, deep: bool):
+    sizes = {f"x{i}": draw(st.integers(1, 3)) for i in range(draw(st.integers(1, 2)))}
+    names = sorted(sizes)
+    specs = []
+    for k in range(n):
+        spec = draw(disc_specs(k, sizes, allow_fail=False))
+        spec["delay"] = 0
+        # every discipline reads every input, so that the input names are shared
+        for o in spec["outs"]:
+            o["terms"] = {nm: o["terms"].get(nm) or {"a": _mat(draw, o["size"], sizes[nm]), "b": _mat(draw, o["size"], sizes[nm])} for nm in names}
+        spec["ins"] = names
+        spec["write"] = {nm: draw(st.sampled_from(sorted(WRITE_OPS))) for nm in names if _chance(draw, 1, 2)} if deep else {}
+        specs.append(spec)
+    if deep and not any(sp["write"] for sp in specs):
+        specs[draw(st.integers(0, n - 1))]["write"] = {names[0]: draw(st.sampled_from(sorted(WRITE_OPS)))}
+    for sp, turn in zip(specs, draw(st.permutations(list(range(n))))):
+        sp["turn"] = turn
+    return {"sizes": sizes, "discs": specs, "deep": deep, "w": draw(st.sampled_from([None, n, n + 1])),
+            "x": {nm: [draw(st.integers(1, 6)) * 0.5 for _ in range(sizes[nm])] for nm in names}}
+
+
+def case_chain_inplace(p, ctx):
+    from gemseo.core.chains.parallel_chain import MDOParallelChain
+
+    sizes, specs, n = p["sizes"], p["discs"], len(p["discs"])
+    if sorted(sp["turn"] for sp in specs) != list(range(n)) or (not p["deep"] and any(sp["write"] for sp in specs)) \
+            or (p["w"] is not None and p["w"] < n):
+        raise HarnessError(f"malformed payload {p}")
+    cls = _writer_disc_class()
+    turns = _Turns(n)
+    x0 = _arrays(p["x"])
+    # sequential counterpart: each discipline alone on a fresh copy of the inputs
+    serial = [cls(sp, sizes, f"S{k}").execute({k2: v.copy() for k2, v in x0.items()}) for k, sp in enumerate(specs)]
+    with _Quiet(True):
+        chain = MDOParallelChain([cls(sp, sizes, f"D{k}", turns) for k, sp in enumerate(specs)], use_threading=True,
+                                 n_processes=p["w"], use_deep_copy=p["deep"])
+        given = {k: v.copy() for k, v in x0.items()}
+        try:
+            data = _run_with_timeout(lambda: chain.execute(given), "MDOParallelChain.execute with in-place writers", ctx)
+        finally:
+            for ev in turns.done:
+                ev.set()
+    if turns.timed_out:
+        raise HarnessError(f"a discipline waited {GATE_TIMEOUT}s for its turn: {p}")
+    writers = [k for k, sp in enumerate(specs) if sp["write"]]
+    ctx.cls("inplace:deep_copy" if p["deep"] else "inplace:read_only_shared_inputs", f"inplace:n={n}", f"inplace:writers={len(writers)}")
+    for k, sp in enumerate(specs):
+        own = {k2: v.copy() for k2, v in x0.items()}
+        for name, op in sorted(sp["write"].items()):
+            WRITE_OPS[op](own[name])
+        for o in sp["outs"]:
+            ctx.check(o["name"] in data, "chain_independent_inputs", f"{o['name']} missing from the chain output")
+            ctx.check(_same(data[o["name"]], serial[k][o["name"]], exact=True), "chain_independent_inputs",
+                      f"{o['name']} of D{k} (turn {sp['turn']}) in the parallel chain differs from its execution alone on a fresh copy of the inputs: "
+                      "the disciplines do not have independent input data", got=data[o["name"]], alone=serial[k][o["name"]],
+                      turns=[s["turn"] for s in specs], writers=writers)
+            ctx.check(_same(data[o["name"]], poly_value(o, sizes, own), exact=False), "chain_independent_inputs",
+                      f"{o['name']} of D{k} differs from the closed form on its own (modified) inputs", got=data[o["name"]])
+    for name, v in x0.items():
+        ctx.check(np.array_equal(given[name], v), "chain_caller_input", f"the array {name} given by the caller was modified: {given[name]} (was {v})")
+    # a writer whose turn comes before another discipline's: the interleaving in which sharing would be visible
+    exposed = any(specs[a]["turn"] < specs[b]["turn"] and set(specs[a]["write"]) for a in writers for b in range(n) if b != a)
+    if exposed:
+        ctx.nontriv(("inplace", p))
+        ctx.cls("inplace:writer_before_another_discipline")
+    ctx.sample({"oracle": "chain_inplace", "n": n, "deep": p["deep"], "turns": [s["turn"] for s in specs], "writers": writers})
+
+
+ORACLES["chain_inplace"] = case_chain_inplace
